@@ -12,9 +12,10 @@ def to_complex(z: dict[str, float], degree: bool = False) -> complex:
     except (KeyError, TypeError):
         ...
     try:
+        phase = z['phase']
         if degree:
-            z['phase'] *= np.pi/180
-        return z['abs']*complex(np.cos(z['phase']), np.sin(z['phase']))
+            phase = phase*np.pi/180
+        return z['abs']*complex(np.cos(phase), np.sin(phase))
     except (KeyError, TypeError):
         raise FileFormatError
 
